@@ -135,7 +135,43 @@ def hand_enums(meta):
     for name, members in HAND.items():
         E = meta(name, (IntEnum,), _mkdict(meta, name, members))
         out.append((name, E, {o: n for n, o in members.items()}))
+    # declarations a protocol library user may well write: members carrying extra data through a custom
+    # __new__, methods / properties / class attributes on the enum, aliases
+    ns = {"IntEnum": IntEnum, "meta": meta}
+    exec(EXOTIC_SRC, ns)
+    out.append(("WithLabel", ns["WithLabel"], {0: "STAND", 1: "CHAIR", 2: "FLOOR"}))
+    out.append(("WithMethods", ns["WithMethods"], {1: "Low", 5: "High"}))
     return out
+
+
+EXOTIC_SRC = '''
+class WithLabel(IntEnum, metaclass=meta):
+    def __new__(cls, value, label):
+        obj = int.__new__(cls, value)
+        obj._value_ = value
+        obj.label = label
+        return obj
+    STAND = 0, "standing"
+    CHAIR = 1, "on a chair"
+    FLOOR = 2, "on the floor"
+
+
+class WithMethods(IntEnum, metaclass=meta):
+    Low = 1
+    High = 5
+    Top = 5          # alias of High
+
+    @property
+    def doubled(self):
+        return int(self) * 2
+
+    @classmethod
+    def parse(cls, text):
+        return cls(int(text))
+
+    def describe(self):
+        return "%s=%d" % (self.name, self)
+'''
 
 
 def _mkdict(meta, name, members):
